@@ -58,7 +58,7 @@ def small_ds(n=0, patient="TEST^%d"):
     return ds
 
 
-def store_ds(n=0, sop_class=CT, extra_bytes=0):
+def store_ds(n=0, sop_class=CT, extra_bytes=0, ts=IVLE):
     from pydicom.dataset import Dataset
 
     ds = Dataset()
@@ -68,6 +68,10 @@ def store_ds(n=0, sop_class=CT, extra_bytes=0):
     ds.PatientID = "S%04d" % n
     if extra_bytes:
         ds.ImageComments = "x" * extra_bytes
+    from pydicom.dataset import FileMetaDataset
+
+    ds.file_meta = FileMetaDataset()
+    ds.file_meta.TransferSyntaxUID = ts
     return ds
 
 
